@@ -15,11 +15,18 @@ def run(prop, tier, seed):
     progs, res = vlib.gen_enumerate(prop, os.path.join(PROPS, "C08.tla"))
     cov["states"] = res.distinct
     cov["transitions"] = max(res.generated, 1)
+    # compositional kinds (spec/props/C08deep.tla): the mutable array at the end of every path of value constructors
+    deep, dres = vlib.gen_enumerate(prop, os.path.join(PROPS, "C08deep.tla"),
+                                    cfg=os.path.join(PROPS, "C08deep.cfg" if tier == "quick" else "C08deep_thorough.cfg"))
+    cov["states"] += dres.distinct
+    ndeep = len(deep)
+    progs = progs + deep
     d_tasks = schedlib.drives(wd, "Slicing_tasks" if tier == "quick" else "Slicing_tasks_thorough")
     cases = []
     for j, c in enumerate(progs):
         for i, d in enumerate(d_tasks):
-            if tier != "quick" or (i + j) % 3 == 0:
+            every = 3 if "path" not in c else 6
+            if (tier != "quick" and "path" not in c) or (i + j) % (every if tier == "quick" else 4) == 0:
                 extra = {"maxsteps": 60000, "quarantine": (i + j) % 2 == 0}
                 if (i + j) % 6 == 0:
                     extra["trace"] = 8
@@ -38,9 +45,10 @@ def run(prop, tier, seed):
         "traces_validated_against_impl": len(runs),
         "evaluations": len(cases), "distinct_nontrivial": len({c["id"] for c in cases}),
         "rule": "(captured value kind, mutating side) x embedder drive; kinds and sides enumerated exhaustively by spec/props/C08.tla",
-        "programs": len(progs), "drives": len(d_tasks), "exhaustive": True,
+        "programs": len(progs), "compositional_path_programs": ndeep, "drives": len(d_tasks), "exhaustive": True,
         "samples": [{"id": c["id"], "budgets": c["budgets"], "source": c["files"]["main.abra"], "expect": c["expect"]} for c in cases[:2]],
     })
     rep.coverage = cov
-    rep.assumptions = ["nesting depth of captured values <= 2; the observation goes through a string channel"]
+    rep.assumptions = ["nesting depth of captured values <= 2 (quick) / 3 (thorough) constructors around the mutable array; "
+                       "the observation goes through a string channel"]
     return rep.finish()
